@@ -215,6 +215,47 @@ func C15(c *Ctx) {
 	c.CovAdd("classes", len(gs)*per)
 	c.Sample(map[string]any{"classes_of_first_grammar": gast.Short(gs[0])})
 	c.DiffCheck(cfg)
+	c.c15General()
+}
+
+// c15General: the flag only changes how a character class decides - so whole grammars, in which
+// classes stand at the start of sequences below lookaheads, choices, repetitions and rule references,
+// must parse every input alike with and without it (whatever the generated code derives from the tables).
+func (c *Ctx) c15General() {
+	rng := rand.New(rand.NewSource(c.Seed*389 + 15))
+	mk := func(rules ...*gast.Rule) *gast.Grammar { return &gast.Grammar{Rules: rules} }
+	r := func(n string, e *gast.Expr) *gast.Rule { return &gast.Rule{Name: n, Expr: e} }
+	dig := func() *gast.Expr { return gast.Cl(&gast.ClassSpec{Ranges: [][2]rune{{'0', '9'}}}) }
+	az := func() *gast.Expr { return gast.Cl(&gast.ClassSpec{Ranges: [][2]rune{{'a', 'z'}}, Chars: []rune("_")}) }
+	gs := []*gast.Grammar{
+		mk(r("S", gast.S(gast.Star(gast.C(gast.S(gast.NotE(gast.S(gast.Plus(dig()), gast.L("."))), gast.Plus(dig())), gast.S(gast.Plus(dig()), gast.L("."), gast.Star(dig())), gast.S(gast.AndE(gast.S(az(), gast.L("("))), gast.Plus(az()), gast.L("(")), gast.Plus(az()), gast.L(" "))), gast.NotE(gast.Dot())))),
+		mk(r("S", gast.S(gast.Star(gast.C(gast.S(gast.NotE(gast.Ref("Kw")), gast.Ref("Id")), gast.Ref("Kw"), gast.S(gast.NotE(gast.S(gast.Cl(&gast.ClassSpec{Chars: []rune("+-")}), dig())), gast.Cl(gast.Chars("+-*/"))), gast.S(gast.Opt(gast.Cl(gast.Chars("+-"))), gast.Plus(dig())), gast.L(" "))), gast.Star(gast.Dot()))),
+			r("Kw", gast.S(gast.C(gast.L("if"), gast.L("in")), gast.NotE(az()))), r("Id", gast.S(az(), gast.Star(gast.C(az(), dig()))))),
+	}
+	p := pegProfile()
+	p.W[gast.Class] = 30
+	p.W[gast.Not] = 14
+	p.W[gast.And] = 10
+	for i := 0; i < c.N(40, 500); i++ {
+		gs = append(gs, gast.Generate(rng, p))
+	}
+	cfg := &DiffConfig{
+		Grammars: gs,
+		Variants: [][]string{{}, {"-optimize-basic-latin"}},
+		Cases: func(gi int, g *gast.Grammar) []*mon.Case {
+			var cs []*mon.Case
+			for _, in := range c.inputsFor(g, rng, c.N(40, 100), c.N(80, 400), false) {
+				cs = append(cs, &mon.Case{Input: in, MaxExpr: 400000, MaxEvents: 200})
+			}
+			return cs
+		},
+		Compare:      stdCompare(true, true),
+		NonTrivial:   func(r *mon.Result, cs *mon.Case) bool { return r.ErrNil },
+		SkipNotBuilt: true,
+		Chunk:        50,
+	}
+	c.CovAdd("general_grammars_with_and_without_the_flag", len(gs))
+	c.DiffCheck(cfg)
 }
 
 // c15Fixed are classes where the two paths apply case folding differently.
